@@ -19,6 +19,7 @@ var props = map[string]func(*check.Ctx) int{
 	"C04": check.C04,
 	"C05": check.C05,
 	"C06": check.C06,
+	"C07": check.C07,
 	"C12": check.C12,
 	"C13": check.C13,
 	"C14": check.C14,
